@@ -110,8 +110,9 @@ package types
 //@ ; ids from the stored highest id upwards have never been used
 //@ (define-fun ENT_FRESH ((s (Array enterprise.Key (Slice Int)))) Bool (and (=> (entHighestSet s) (= (sl.len (select s kEHighest)) 8))
 //@    (forall ((i Int)) (! (=> (and (entHighestSet s) (>= i (u64dec (select s kEHighest)))) (and (not (poHas s i)) (not (raisedHas s i)) (not (acceptedHas s i)))) :pattern ((select s (kPO i))) :pattern ((select s (kRaised i))) :pattern ((select s (kAccepted i)))))))
-//@ ; a queued (raised or accepted) order can be completed: a positive amount below 2^255 in the module's denomination, a well-formed purchaser
-//@ (define-fun poCompletable ((p enterprise.EnterpriseUndPurchaseOrder) (dn Str)) Bool (and (not (= (sdk.Coin.Amount (enterprise.EnterpriseUndPurchaseOrder.Amount p)) nilInt)) (< 0 (Amt (enterprise.EnterpriseUndPurchaseOrder.Amount p))) (< (Amt (enterprise.EnterpriseUndPurchaseOrder.Amount p)) P255) (= (sdk.Coin.Denom (enterprise.EnterpriseUndPurchaseOrder.Amount p)) dn) (validBech32 (enterprise.EnterpriseUndPurchaseOrder.Purchaser p))))
+//@ (define-fun P128 () Int 340282366920938463463374607431768211456)
+//@ ; a queued (raised or accepted) order can be completed: a positive amount below 2^128 (state assumption on magnitudes) in the module's denomination, a well-formed purchaser
+//@ (define-fun poCompletable ((p enterprise.EnterpriseUndPurchaseOrder) (dn Str)) Bool (and (not (= (sdk.Coin.Amount (enterprise.EnterpriseUndPurchaseOrder.Amount p)) nilInt)) (< 0 (Amt (enterprise.EnterpriseUndPurchaseOrder.Amount p))) (< (Amt (enterprise.EnterpriseUndPurchaseOrder.Amount p)) P128) (= (sdk.Coin.Denom (enterprise.EnterpriseUndPurchaseOrder.Amount p)) dn) (validBech32 (enterprise.EnterpriseUndPurchaseOrder.Purchaser p))))
 //@ (define-fun ENT_PO_WF ((s (Array enterprise.Key (Slice Int)))) Bool
 //@    (forall ((i Int)) (! (=> (and (poHas s i) (or (= (poStatus s i) 1) (= (poStatus s i) 2))) (poCompletable (poGet s i) (entDenom s))) :pattern ((select s (kPO i))))))
 //@ ; authorised enterprise signers: the well-formed entries of the comma-separated parameter, compared as addresses
@@ -122,6 +123,14 @@ package types
 //@ (define-fun decCount.def ((ds (Array Int enterprise.PurchaseOrderDecision)) (n Int) (v Int)) Int
 //@   (ite (<= n 0) 0 (+ (decCount ds (- n 1) v) (ite (= (enterprise.PurchaseOrderDecision.Decision (select ds (- n 1))) v) 1 0))))
 //@ (assert (forall ((ds (Array Int enterprise.PurchaseOrderDecision)) (n Int) (v Int)) (! (and (<= 0 (decCount ds n v)) (<= (decCount ds n v) (imax 0 n))) :pattern ((decCount ds n v)))))
+//@ (define-fun P200 () Int 1606938044258990275541962092341162602522202993782792835301376)
+//@ ; the three module invariants of the purchase-order life cycle
+//@ (define-fun ENT_ALL ((s (Array enterprise.Key (Slice Int)))) Bool (and (ENT_Q s) (ENT_FRESH s) (ENT_PO_WF s) (entParamsSet s) (validDenom (entDenom s))))
+//@ ; what completing does to one order that was accepted at entry (s0 -> s)
+//@ (define-fun completedFrom ((s0 (Array enterprise.Key (Slice Int))) (s (Array enterprise.Key (Slice Int))) (i Int)) Bool
+//@   (let ((p0 (poGet s0 i)))
+//@     (and (poHas s i) (= (poStatus s i) 4) (not (acceptedHas s i))
+//@          (= (select s (kPO i)) (marshal.enterprise.EnterpriseUndPurchaseOrder (mk.enterprise.EnterpriseUndPurchaseOrder (enterprise.EnterpriseUndPurchaseOrder.Id p0) (enterprise.EnterpriseUndPurchaseOrder.Purchaser p0) (enterprise.EnterpriseUndPurchaseOrder.Amount p0) 4 (enterprise.EnterpriseUndPurchaseOrder.RaiseTime p0) (enterprise.EnterpriseUndPurchaseOrder.CompletionTime p0) (enterprise.EnterpriseUndPurchaseOrder.Decisions p0)))))))
 //@ ; the tally rule of the statement (C03), clause by clause: 3 = rejected, 2 = accepted, 1 = still raised
 //@ (define-fun poAccepts ((p enterprise.EnterpriseUndPurchaseOrder)) Int (decCount (sl.arr (enterprise.EnterpriseUndPurchaseOrder.Decisions p)) (sl.len (enterprise.EnterpriseUndPurchaseOrder.Decisions p)) 2))
 //@ (define-fun poRejects ((p enterprise.EnterpriseUndPurchaseOrder)) Int (decCount (sl.arr (enterprise.EnterpriseUndPurchaseOrder.Decisions p)) (sl.len (enterprise.EnterpriseUndPurchaseOrder.Decisions p)) 3))
@@ -364,3 +373,11 @@ package types
 //@   inline
 //@ func ValidWhitelistAction(action)
 //@   inline
+
+// generated protobuf code (enterprise.pb.go): name lookup of an enum value; no access to module state
+//@ func PurchaseOrderStatus.String(x) (r)
+//@   trusted generated code: proto.EnumName lookup in a constant table
+//@   pure
+//@ func WhitelistAction.String(x) (r)
+//@   trusted generated code: proto.EnumName lookup in a constant table
+//@   pure
